@@ -52,6 +52,7 @@ type c15ConsumerOut struct {
 	SpawnReturned   bool    `json:"spawn_returned"`
 	SpawnErr        string  `json:"spawn_err"`
 	SCDone          int64   `json:"sc_done"`    // items whose push had completed when SpawnOutput was called
+	SCMaxRecv       int64   `json:"sc_maxrecv"` // the highest item some consumer had already received when SpawnOutput was called (-1 = none)
 	SRStarted       int64   `json:"sr_started"` // items whose push had been started when SpawnOutput returned
 	DespawnCalled   bool    `json:"despawn_called"`
 	DespawnReturned bool    `json:"despawn_returned"`
@@ -118,6 +119,18 @@ func c15RunScenario(sc c15Scenario) (res c15ScenarioOut) {
 	f := NewDynamicFanOut[int64](in)
 
 	var started, done, spawned atomic.Int64
+	// maxRecv: the highest item any consumer has taken out of its channel so far (-1 = none). An item that somebody has received has
+	// been taken from the input stream, so a consumer whose SpawnOutput is CALLED afterwards is inserted behind it and must not get it.
+	var maxRecv atomic.Int64
+	maxRecv.Store(-1)
+	noteRecv := func(v int64) {
+		for {
+			old := maxRecv.Load()
+			if v <= old || maxRecv.CompareAndSwap(old, v) {
+				return
+			}
+		}
+	}
 	var finished atomic.Bool
 	abort := make(chan struct{})
 	var abortOnce sync.Once
@@ -219,6 +232,7 @@ func c15RunScenario(sc c15Scenario) (res c15ScenarioOut) {
 			}
 			spc := make(chan spawnRes, 1)
 			o.SpawnCalled = true
+			o.SCMaxRecv = maxRecv.Load()
 			o.SCDone = done.Load()
 			go func() {
 				var sr spawnRes
@@ -272,6 +286,7 @@ func c15RunScenario(sc c15Scenario) (res c15ScenarioOut) {
 								close(stoppedReading)
 								return
 							}
+							noteRecv(v)
 							mu.Lock()
 							recv = append(recv, v)
 							mu.Unlock()
@@ -299,6 +314,7 @@ func c15RunScenario(sc c15Scenario) (res c15ScenarioOut) {
 							mu.Unlock()
 							return
 						}
+						noteRecv(v)
 						mu.Lock()
 						recv = append(recv, v)
 						mu.Unlock()
